@@ -7,7 +7,7 @@ CONSTANTS
   SaltSet = {0}
   EstSet = {1, 2, 3}
   FltSet = {1, 3, 5, 6}
-  WSet = {1, 2}
+  WSet = {1, 2, 4}
   Emit = TRUE
 INIT Init
 NEXT Next
